@@ -72,9 +72,9 @@ impl Prop for C05 {
     }
     fn runs(&self, tier: &str) -> u64 {
         if tier == "thorough" {
-            6_000_000
+            4_000_000
         } else {
-            200_000
+            150_000
         }
     }
     fn gen(&self, seed: u64) -> Scenario {
@@ -216,7 +216,7 @@ impl Prop for C05 {
             // entropy twins must receive identical deliveries; anything else is not a C05 scenario
             return Ok(Exec { violation: None, trace: 0, fingerprint: 0, nontrivial: false, sim_steps: 0, discarded: Some("twins_differ".into()), shape: 0, env_sig: 0 });
         }
-        let want = Want { renders: true, render_twice: true, obs: false };
+        let want = Want { renders: true, render_twice: true, obs: false, obs_sorted: false };
         let outs = run_session(s, &want)?;
         let trace = trace_hash(&outs);
         let mut violation = None;
